@@ -1,4 +1,4 @@
-import CV.Model.Core.Types
+import CV.Model.Core.Pure
 /-
 The core machine: a big-step interpreter of `Manager` for one thread, with fuel
 (user programs may loop for ever; theorems are about runs that return).
@@ -12,152 +12,66 @@ namespace CV.Core
 
 abbrev M := ExceptT Exn (StateM St)
 
-/-! ### table access -/
+/-! ### table access (monadic views of the primitives of `Pure.lean`) -/
 
-def dfltComp : Comp := { parent := 0, root := 0 }
-def dfltEv : Ev := { name := ⟨0, []⟩ }
-def dfltHandler : Handler := { owner := 0, names := [], chan := none, kind := .fallbackExc }
-
-def getComp (c : Nat) : M Comp := do return (← get).comps.getD c dfltComp
-def getEv (e : Nat) : M Ev := do return (← get).evs.getD e dfltEv
-def getH (h : Nat) : M Handler := do return (← get).hs.getD h dfltHandler
-def modComp (c : Nat) (f : Comp → Comp) : M Unit :=
-  modify fun s => { s with comps := s.comps.modify c f }
-def modEv (e : Nat) (f : Ev → Ev) : M Unit :=
-  modify fun s => { s with evs := s.evs.modify e f }
-def modWait (w : Nat) (f : WaitSt → WaitSt) : M Unit :=
-  modify fun s => { s with waits := s.waits.modify w f }
-def getWait (w : Nat) : M WaitSt := do
-  return (← get).waits.getD w { owner := 0, evObj := none, evName := ⟨0, []⟩, timeout := -1 }
-def rootOf (c : Nat) : M Nat := do return (← getComp c).root
+def getComp (c : Nat) : M Comp := do return (← get).comp c
+def getEv (e : Nat) : M Ev := do return (← get).ev e
+def getH (h : Nat) : M Handler := do return (← get).handler h
+def modComp (c : Nat) (f : Comp → Comp) : M Unit := modify (·.modComp c f)
+def modEv (e : Nat) (f : Ev → Ev) : M Unit := modify (·.modEv e f)
+def modWait (w : Nat) (f : WaitSt → WaitSt) : M Unit := modify (·.modWait w f)
+def getWait (w : Nat) : M WaitSt := do return (← get).wait w
+def rootOf (c : Nat) : M Nat := do return (← get).rootOf c
 
 /-- append to the log and advance the tape in step with it -/
-def logE (x : Entry) : M Unit :=
-  modify fun s => { s with log := x :: s.log, tape := s.tape.drop 1 }
+def logE (x : Entry) : M Unit := modify (·.logE x)
 
 def tapeHead : M (Option Entry) := do return (← get).tape.head?
 
 def newEv (e : Ev) : M Nat := do
   let s ← get
-  set { s with evs := s.evs ++ [e] }
+  set (s.addEv e)
   return s.evs.length
 
 def newH (h : Handler) : M Nat := do
   let s ← get
-  set { s with hs := s.hs ++ [h] }
+  set (s.addH h)
   return s.hs.length
 
 def newGen (g : GenRec) : M Nat := do
   let s ← get
-  set { s with gens := s.gens ++ [g] }
+  set (s.addGen g)
   return s.gens.length
 
 /-- canonical key of a generator for the log: user generators are named by their handler
     invocation; helper generators by the user generator they belong to -/
 def genKey (g : Nat) : M Nat := do return g
 
-/-! ### handler tables (manager.py 373-403) -/
+/-! ### handler tables, firing, Value, tasks, tree: the pure functions of `Pure.lean` -/
 
 /-- `addHandler(method)` on the handler's owner -/
-def addHandler (h : Nat) : M Unit := do
-  let hd ← getH h
-  let c := hd.owner
-  if hd.names.isEmpty && hd.chan == some .star then
-    modComp c fun x => { x with globals := if x.globals.contains h then x.globals else x.globals ++ [h] }
-  else if hd.names.isEmpty then
-    modComp c fun x => { x with htab := if x.htab.contains (none, h) then x.htab else x.htab ++ [(none, h)] }
-  else
-    for n in hd.names do
-      modComp c fun x => { x with htab := if x.htab.contains (some n, h) then x.htab else x.htab ++ [(some n, h)] }
-  let r ← rootOf c
-  modComp r fun x => { x with dirty := true }
+def addHandler (h : Nat) : M Unit := modify (·.addHandler h)
 
 /-- `removeHandler(method, event=None)`; `false` = KeyError / ValueError raised -/
 def removeHandler (h : Nat) (byName : Option Name) : M Bool := do
-  let hd ← getH h
-  let c := hd.owner
-  let mut keys : List HKey := match byName with
-    | some n => [some n]
-    | none => hd.names.map some
-  if byName.isNone && hd.names.isEmpty then
-    if hd.chan == some .star then
-      modComp c fun x => { x with globals := x.globals.erase h }
-    else
-      keys := [none]
-  let mut ok := true
-  for k in keys do
-    let x ← getComp c
-    if ok then
-      if x.htab.contains (k, h) then
-        modComp c fun x => { x with htab := x.htab.erase (k, h) }
-      else
-        ok := false
-  if ok then
-    let r ← rootOf c
-    modComp r fun x => { x with dirty := true }
-  return ok
+  let r := (← get).removeHandler h byName
+  set r.2
+  return r.1
 
-/-! ### matching (manager.py 342-371) -/
-
-/-- the test in `getHandlers` for one handler of component `c` -/
-def chanOk (compChan : Chan) (c : Nat) (hd : Handler) (target : Chan) : Bool :=
-  let hc := hd.chan.getD compChan
-  target == .star || hc == .star || hc == target || target == .inst c
-
-/-- `getHandlers(event, channel)` : recursion over the subtree, with fuel = tree size bound -/
-def collect (s : St) : Nat → Nat → Name → Chan → List Nat
-  | 0, _, _, _ => []
-  | fuel + 1, c, name, target =>
-    let x := s.comps.getD c dfltComp
-    let own := (x.htab.filter (fun p => p.1 == none || p.1 == some name)).map (·.2)
-    let own := own.eraseDups
-    let own := own.filter (fun h => chanOk x.chan c (s.hs.getD h dfltHandler) target)
-    let sub := x.children.flatMap (fun d => collect s fuel d name target)
-    (own ++ x.globals ++ sub).eraseDups
-
-/-! ### Value (values.py) -/
-
-/-- `Value.inform(force)` -/
-def fireRaw (self : Nat) (e : Nat) (chans : List Chan) (prio : Int) : M Unit := do
-  -- `fireEvent` after the event object exists: set channels and Value, then `root._fire`
-  modEv e fun x => { x with chans := chans, val := {}, mgr := self }
-  let r ← rootOf self
-  let rc ← getComp r
-  if rc.executing || rc.flushing then
-    match rc.currently with
-    | some h =>
-      let hev ← getEv h
-      if hev.cause.isSome then
-        modEv e fun x => { x with cause := some h, effects := 1 }
-        modEv h fun x => { x with effects := x.effects + 1 }
-    | none => pure ()
-  else
-    -- foreign-thread branch: no cause tracking; wake a pending generate_events
-    match rc.currently with
-    | some h =>
-      let hev ← getEv h
-      if hev.name == Name.generateEvents then
-        modEv h fun x => { x with timeLeft := if x.timeLeft < 0 || x.timeLeft > 0 then 0 else x.timeLeft }
-    | none => pure ()
-  modComp r fun x => { x with eq := x.eq.append e prio }
-  let ev ← getEv e
-  logE (.fire e ev.name chans prio)
+/-- `fireEvent` after the event object exists: set channels and Value, then `root._fire` -/
+def fireRaw (self : Nat) (e : Nat) (chans : List Chan) (prio : Int) : M Unit :=
+  modify (·.fireRaw self e chans prio)
 
 def childEv (p : Nat) (sfx : Nat) : M Nat := do
-  let pe ← getEv p
-  newEv { name := pe.name.child sfx, parentEv := some p }
+  let s ← get
+  set (s.childEv p sfx)
+  return s.evs.length
 
-def inform (e : Nat) (force : Bool) : M Unit := do
-  let ev ← getEv e
-  if ev.val.promise && !force then return
-  if ev.notify then
-    let c ← childEv e sfxValueChanged
-    fireRaw ev.mgr c [.inst ev.mgr] 0
+/-- `Value.inform(force)` -/
+def inform (e : Nat) (force : Bool) : M Unit := modify (·.inform e force)
 
 /-- `event.value.value = x` -/
-def setValue (e : Nat) (x : VItem) : M Unit := do
-  modEv e fun ev => { ev with val := ev.val.set x }
-  inform e false
+def setValue (e : Nat) (x : VItem) : M Unit := modify (·.setValue e x)
 
 /-! ### completion bookkeeping (manager.py `_eventDone`, `_effectDone`) -/
 
@@ -193,19 +107,13 @@ def eventDone (fuel : Nat) (r : Nat) (e : Nat) (err : Bool) : M Unit := do
 
 /-! ### tasks -/
 
-def registerTask (c : Nat) (t : Task) : M Unit := do
-  let r ← rootOf c
-  modComp r fun x => { x with tasks := if x.tasks.contains t then x.tasks else x.tasks ++ [t] }
+def registerTask (c : Nat) (t : Task) : M Unit := modify (·.registerTask c t)
 
-def unregisterTask (c : Nat) (t : Task) : M Unit := do
-  let r ← rootOf c
-  modComp r fun x => { x with tasks := x.tasks.erase t }
+def unregisterTask (c : Nat) (t : Task) : M Unit := modify (·.unregisterTask c t)
 
 /-! ### generate_events (events.py 301-330) -/
 
-def reduceTimeLeft (e : Nat) (t : Int) : M Unit :=
-  modEv e fun x =>
-    if t ≥ 0 && (x.timeLeft < 0 || x.timeLeft > t) then { x with timeLeft := t } else x
+def reduceTimeLeft (e : Nat) (t : Int) : M Unit := modify (·.reduceTimeLeft e t)
 
 /-! ### tree (components.py 123-197, manager.py 405-417) -/
 
@@ -218,13 +126,9 @@ def updateRoot : Nat → Nat → Nat → M Unit
       updateRoot fuel d root
 
 def fireTmplEv (self : Nat) (ev : Ev) (target : Option Chan) (prio : Int) : M Nat := do
-  let e ← newEv ev
-  let sc ← getComp self
-  let chans := match target with
-    | some t => [t]
-    | none => [sc.chan]
-  fireRaw self e chans prio
-  return e
+  let s ← get
+  set (s.fireTmplEv self ev target prio)
+  return s.evs.length
 
 /-- `BaseComponent.register(parent)` -/
 def register (fuel : Nat) (c p : Nat) : M Unit := do
@@ -252,13 +156,7 @@ def register (fuel : Nat) (c p : Nat) : M Unit := do
     updateRoot fuel c pc.root
 
 /-- `BaseComponent.unregister()` -/
-def unregister (c : Nat) : M Unit := do
-  let cc ← getComp c
-  if cc.pending || cc.parent == c then return
-  modComp c fun x => { x with pending := true }
-  modComp cc.root fun x => { x with dirty := true }
-  let _ ← fireTmplEv c { name := Name.prepareUnregister, complete := true,
-                          completeChans := some [.inst c], arg := c } none 0
+def unregister (c : Nat) : M Unit := modify (·.unregister c)
 
 /-- `_do_prepare_unregister_complete` -/
 def doPrepareUnregisterComplete (fuel : Nat) (c : Nat) : M Unit := do
@@ -274,45 +172,8 @@ def doPrepareUnregisterComplete (fuel : Nat) (c : Nat) : M Unit := do
   updateRoot fuel c c
   modComp c fun x => { x with dirty := true }
 
-/-! ### user code: one action -/
-
-inductive Outcome
-  | none
-  | value (v : Nat)
-  | gen (g : Nat)
-  | raised
-  | sysExit (code : Code)
-  | kbdInt
-  deriving Repr
-
-/-- result of advancing a user generator -/
-inductive GenYield
-  | plain (v : Option Nat)
-  | sub (w : Nat)            -- yielded a fresh callEvent / waitEvent generator (wait state id)
-  | stop
-  | raised
-  | sysExit (code : Code)
-  | kbdInt
-  deriving Repr
-
-structure HCtx where
-  self : Nat                  -- the component the code belongs to
-  ev : Option Nat             -- the event being handled (handlers only)
-  deriving Repr
-
-def mkEvOfTmpl (s : St) (t : Nat) : Ev :=
-  let tm := s.tmpls.getD t { name := ⟨0, []⟩ }
-  { name := tm.name, success := tm.success, failure := tm.failure, complete := tm.complete,
-    notify := tm.notify, successChans := tm.successChans, completeChans := tm.completeChans }
-
-/-- identity of a framework handler in the log: the waitEvent generator for the three
-    temporary handlers, the owning component otherwise -/
-def hkey (s : St) (hd : Handler) : Nat :=
-  match hd.kind with
-  | .waitEvent w => (s.waits.getD w { owner := 0, evObj := none, evName := ⟨0, []⟩, timeout := -1 }).task
-  | .waitDone w => (s.waits.getD w { owner := 0, evObj := none, evName := ⟨0, []⟩, timeout := -1 }).task
-  | .waitTick w => (s.waits.getD w { owner := 0, evObj := none, evName := ⟨0, []⟩, timeout := -1 }).task
-  | _ => hd.owner
+/-! ### user code: one action
+    (`Outcome`, `GenYield`, `HCtx`, `mkEvOfTmpl`, `hkey` live in `Pure.lean`) -/
 
 mutual
 
@@ -444,28 +305,7 @@ def resumeGen : Nat → Nat → M GenYield
 /-- first `next()` of a callEvent / waitEvent generator: runs up to `yield state` -/
 def startWait : Nat → Nat → M Unit
   | 0, _ => throw .fuel
-  | _ + 1, w => do
-    let ws ← getWait w
-    let self := ws.owner
-    let sc ← getComp self
-    -- callEvent: value = self.fire(event, *channels); then waitEvent(event, *event.channels)
-    let (evObj, chan) ← match ws.isCall with
-      | some (t, target) => do
-        let e ← fireTmplEv self (mkEvOfTmpl (← get) t) target 0
-        let ev ← getEv e
-        pure (some e, ev.chans.head?)
-      | none => pure (none, ws.chanArg)
-    let _ := sc
-    let hEvent ← newH { owner := self, names := [ws.evName], chan := chan, kind := .waitEvent w }
-    addHandler hEvent
-    let hDone ← newH { owner := self, names := [ws.evName.child sfxDone], chan := chan, kind := .waitDone w }
-    addHandler hDone
-    let hTick ← if ws.timeout ≥ 0 then do
-        let h ← newH { owner := self, names := [Name.generateEvents], chan := chan, kind := .waitTick w }
-        addHandler h
-        pure (some h)
-      else pure none
-    modWait w fun x => { x with evObj := evObj, hEvent := hEvent, hDone := hDone, hTick := hTick, started := true }
+  | _ + 1, w => modify (·.startWait w)
 
 /-- `processTask(event, task, parent)` (manager.py) on root `r` -/
 def processTask : Nat → Nat → Task → M Unit
@@ -682,35 +522,7 @@ def invoke : Nat → Nat → Nat → Nat → M Outcome
 /-- `Timer._on_generate_events` (timers.py) -/
 def timerTick : Nat → Nat → Nat → M Unit
   | 0, _, _ => throw .fuel
-  | fuel + 1, t, e => do
-    let s ← get
-    match s.timers[t]? with
-    | none => return
-    | some tm =>
-      if !tm.created then return
-      let now := s.clock
-      if now ≥ tm.expiry then
-        let cc ← getComp tm.comp
-        if cc.pending then return
-        -- `self.fire(self.event, *self.channels)`: the same event object every time
-        let te ← match tm.ev with
-          | some te => pure te
-          | none => do
-            let te ← newEv (mkEvOfTmpl s tm.tmpl)
-            modify fun s => { s with timers := s.timers.modify t fun x => { x with ev := some te } }
-            pure te
-        let chans := match tm.target with
-          | some tg => [tg]
-          | none => [cc.chan]
-        fireRaw tm.comp te chans 0
-        if tm.persist then
-          modify fun s => { s with timers := s.timers.modify t fun x => { x with expiry := s.clock + x.interval } }
-        else
-          unregister tm.comp
-        reduceTimeLeft e 0
-        let _ := fuel
-      else
-        reduceTimeLeft e (tm.expiry - now)
+  | _ + 1, t, e => modify (·.timerTick t e)
 
 /-- `Timer(...).register(parent)`: the component and its handler are pre-declared; this
     performs `__init__` (expiry) and the registration -/
@@ -897,6 +709,15 @@ def runLoop : Nat → Nat → M Unit
       tick fuel c
       runLoop fuel c
 
+/-- `while len(self._queue): self.tick()` in `run`'s `finally` -/
+def drainLoop : Nat → Nat → M Unit
+  | 0, _ => throw .fuel
+  | fuel + 1, c => do
+    let cc ← getComp c
+    if cc.eq.len > 0 then
+      tick fuel c
+      drainLoop fuel c
+
 def run (fuel : Nat) (c : Nat) : M Unit := do
   modComp c fun x => { x with running := true }
   let r ← rootOf c
@@ -908,9 +729,9 @@ def run (fuel : Nat) (c : Nat) : M Unit := do
     tick fuel c
     tick fuel c
   -- try: body / finally: tick  (only SystemExit-like exceptions exist in the model)
-  tryCatch (do body; tick fuel c) fun ex => do
+  tryCatch (do body; tick fuel c; drainLoop fuel c) fun ex => do
     match ex with
-    | .sysExit _ => tryCatch (tick fuel c) (fun _ => pure ())
+    | .sysExit _ => tryCatch (do tick fuel c; drainLoop fuel c) (fun _ => pure ())
     | _ => pure ()
     throw ex
   let r ← rootOf c
